@@ -93,6 +93,10 @@ def run(tier, seed):
     gen = [(i, p) for i, p in enumerate(U.enumerate_programs(2)) if (i < 992 and i % 3 == seed % 3) or i % (31 if tier == "quick" else 5) == seed % (31 if tier == "quick" else 5)]
     for i, p in gen:
         items.append(dict(ast=p, label="U#%d" % i, want_c=(i % 37 == seed % 37), cap=2000, levels=[[]], extra=["-feof-support"]))
+    nstep = 29 if tier == "quick" else 3
+    for i, p in enumerate(U.enumerate_nested()):       # one block nested in another (see C01), with end-of-input from every reachable product state
+        if i % nstep == seed % nstep:
+            items.append(dict(ast=p, label="N#%d" % i, want_c=(i % (nstep * 9) == seed % (nstep * 9)), cap=2000, levels=[[]] if i % 2 else [["-O3"]], extra=["-feof-support"]))
     stats = dict(enumerated=len(items), accepted=0, rejected=0, capped=0, machine_spins_left_to_C04=0, ambiguity_witnesses_left_to_C09=0, end_steps=0, cbuild_failed=0)
     for idx, r in pmap(c01.check_program, items, timeout=600, chunksize=8, stop=ck.enough):
         if "harness_error" in r or "harness_timeout" in r:
